@@ -223,6 +223,9 @@ def rule_A4(ctx):
                         r.finding(p, "apply-argument", loc(f["hir"]), "host apply receives argument %s; it must be the right operand (%s)" % (_fmt(arg), _fmt(right)))
         if "defer" in kinds_seen:
             n_defer_fns += 1
+        # both forms of apply reach the host's apply callback for an external (`f <~ x` and the zero-argument `f~~`)
+        if name in ("apply", "empty_apply") and outs and "apply" not in kinds_seen:
+            r.finding(p, "external-never-applied:" + name, loc(f["hir"]), "no path through `%s` invokes the host's apply callback: applying an external this way never reaches the host (the operation is offered to defer_op or answered with unit instead)" % name)
     # unit without an offer: in a function that defers undefined combinations, a path that answers unit having neither asked the
     # host nor looked at / built any value decides "undefined" by the operand types alone - exactly the case the host must be
     # offered first.  Decided with a flags-only model (which of {unit pushed, host asked, value touched} happened on the path).
